@@ -189,7 +189,12 @@ def key_block(o, resolve):
     if w is not None:
         kids.append(B(TAG['KEY_VALUE'], hx(o.get('value', ''))))
     else:
-        kv = [B(TAG['KEY_MATERIAL'], hx(o.get('value', '')))]
+        if o.get('km_struct'):
+            # transparent key: Key Material is a structure
+            kv = [S(TAG['KEY_MATERIAL'], B(0x42003F, hx(o.get('value',
+                                                               ''))))]
+        else:
+            kv = [B(TAG['KEY_MATERIAL'], hx(o.get('value', '')))]
         for a in o.get('kv_attrs', []):
             kv.append(attr_v1(a))
         kids.append(S(TAG['KEY_VALUE'], *kv))
